@@ -217,7 +217,7 @@ def run(F, R, tier):
     except AnalysisBroken as e:
         R.soft_broken(str(e))
 
-    _index_spaces(F, R)
+    R.guard(_index_spaces, F, R)
 
     # ---- R6 default constants -------------------------------------------------------------------
     R.rule("R6", "the default SM constants of gm2_constants.hpp are read only by constructors / default "
